@@ -477,9 +477,10 @@ func genRdata(r *Rng, pl *specPlan, nameMode int, plainStr bool) (rd []byte, fie
 				plain = false
 			}
 		case "unpackStringOctet":
-			b := genCharString(r, true)
-			// backslash-free: see KNOWN_FINDINGS F8 (octet kind un-escapes on pack); covered by a dedicated stream
-			b = []byte(strings.ReplaceAll(string(b), "\\", "/"))
+			b := genCharString(r, plainStr)
+			if r.Chance(15) {
+				b = append(b, []byte{'\\', 'a', '\\', '0', '6', '5', '"'}[r.Intn(7)])
+			}
 			rd = append(rd, b...)
 			fields[s.Field] = b
 			kinds[s.Field] = "octet"
@@ -640,7 +641,11 @@ func checkFields(rr dns.RR, g *GenRR) string {
 					return fmt.Sprintf("%s[%d]: %q", f, i, fv.Index(i).String())
 				}
 			}
-		case "octet", "any":
+		case "octet":
+			if string(unescape(fv.String())) != string(want.([]byte)) {
+				return fmt.Sprintf("%s: %q", f, fv.String())
+			}
+		case "any":
 			if fv.String() != string(want.([]byte)) {
 				return fmt.Sprintf("%s: %q", f, fv.String())
 			}
